@@ -93,11 +93,25 @@ TResid == /\ l <= Len(Tr) /\ Ev.e = "Resid" /\ phase = "pred" /\ Step
           /\ Ev.err <= Tol                                    \* residual = prediction - matching response column
           /\ Ev.resp = Ev.col % run.ny /\ Ev.lv = Ev.col \div run.ny + 1
           /\ UNCHANGED <<phase, run, created, joined, merged, opos, cur, seenTest, npass, nsplit>>
+\* the public train_test_split(): the test ids it reports and the ids read back from the rows it copied (x[i] = i)
+\* Prop: test and training parts are disjoint, duplicate-free and together exhaust the data; the rows copied are the rows of the ids.
+\* Impl: the test part holds ceil(fraction * n) objects, the training part keeps the original order.
+Increasing(s) == \A i \in 1..(Len(s) - 1) : s[i] < s[i + 1]
+TTts == /\ l <= Len(Tr) /\ Ev.e = "Tts" /\ phase = "orch" /\ run.scheme = "tts" /\ Step
+        /\ LET tr == [i \in 1..Len(Ev.train) |-> Ev.train[i]]
+               te == [i \in 1..Len(Ev.test) |-> Ev.test[i]]
+               id == [i \in 1..Len(Ev.ids) |-> Ev.ids[i]] IN
+           /\ Ev.n = run.n
+           /\ SplitIsSound(tr, te, Ev.n)                                                      \* Prop
+           /\ id = te /\ Ev.rows = 1                                                          \* Prop: reported ids = copied rows
+           /\ (PropOnly \/ (Len(te) = CeilDiv(Ev.num * Ev.n, Ev.den) /\ Increasing(tr)))      \* Impl
+        /\ phase' = "folds"
+        /\ UNCHANGED <<run, created, joined, merged, opos, cur, seenTest, npass, nsplit>>
 TEnd == /\ l <= Len(Tr) /\ Ev.e = "End" /\ phase \in {"folds", "pred"} /\ Step
         /\ (phase = "folds" => PassComplete)
         /\ Ev.shape = 1
         /\ phase' = "idle" /\ UNCHANGED <<run, created, joined, merged, opos, cur, seenTest, npass, nsplit>>
-TNext == TReset \/ TRun \/ TCreate \/ TJoin \/ TMerge \/ TGroups \/ TSplit \/ TRows \/ TPred \/ TResid \/ TEnd
+TNext == TReset \/ TRun \/ TTts \/ TCreate \/ TJoin \/ TMerge \/ TGroups \/ TSplit \/ TRows \/ TPred \/ TResid \/ TEnd
 TSpec == TInit /\ [][TNext]_tvars
 TraceAccepted == Accepted
 Diag == ShowCursor(l)
